@@ -5,6 +5,7 @@ import (
 	"fmt"
 	"math"
 	"strings"
+	"time"
 
 	"github.com/google/go-cmp/cmp"
 	"github.com/google/go-cmp/cmp/cmpopts"
@@ -39,7 +40,17 @@ func hasMove(g *cff.Glyph) bool { return len(g.Cmds) > 0 }
 // c13Roundtrip writes, walks the bytes with the independent reader, reads back and compares.
 func c13Roundtrip(c *explore.Ctx, sig string, f *cff.Font, desc any) (*refcff.Font, *cff.Font) {
 	buf := &bytes.Buffer{}
-	if err := f.Write(buf); err != nil {
+	var err error
+	fin, pmsg := withWatchdog(20*time.Second, func() { err = f.Write(buf) })
+	if !fin {
+		c.FailObserved("C13.write", sig+" / does not return", "Write does not return within 20 s; %v", desc)
+		return nil, nil
+	}
+	if pmsg != "" {
+		c.Fail("C13.write", sig+" / "+explore.PanicSignature(pmsg), "Write panics: %s; %v", pmsg, desc)
+		return nil, nil
+	}
+	if err != nil {
 		c.Fail("C13.write", sig, "Write failed: %v; %v", err, desc)
 		return nil, nil
 	}
@@ -583,7 +594,7 @@ func c13AssembledDicts(r *run.Run) {
 
 func c13Numbers(r *run.Run) {
 	ints := []int32{0, 107, 108, -107, -108, 1131, 1132, -1131, -1132, 32767, 32768, -32768, -32769, 1<<31 - 1, -1 << 31}
-	reals := []float64{0.5, 0.001, 0.039625, 1e-5, 123456789, 1.23456789e-20, -7.5e12, 0.1, -0.25, 3.0e-3, 1e10}
+	reals := []float64{0.5, 0.001, 0.039625, 1e-5, 123456789, 1.23456789e-20, -7.5e12, 0.1, -0.25, 3.0e-3, 1e10, 1e300, -2.5e-300, 3e-310, 5e-324}
 	unit := []float64{0.5, 0.001, 0.25, 1e-5, 0.123456789, 1, 0.0397} // BlueScale is clamped to [0,1] on reading
 	angles := []float64{0.5, -12.25, 89.999, -0.001, 7.123456789}
 	r.Explore(explore.Config{Name: "C13.numbers"},
@@ -643,7 +654,11 @@ func c13Numbers(r *run.Run) {
 			if g == nil {
 				return
 			}
-			c13Compare(c, "numbers "+strings.SplitN(desc, "=", 2)[0], f, g, desc)
+			// the reader flushes numbers below 1e-300 to zero and clamps at 1e300 (its documented range):
+			// such values are compared in the written bytes only, through the independent DICT parser
+			if math.Abs(want) >= 1e-300 || want == 0 {
+				c13Compare(c, "numbers "+strings.SplitN(desc, "=", 2)[0], f, g, desc)
+			}
 			if rf != nil && wantOp >= 0 && len(rf.Privates) == 1 {
 				got, ok := rf.Privates[0].Dict[wantOp]
 				def := map[int]float64{1209: 0.039625, 10: 0, 1210: 7, 1211: 1}[wantOp]
